@@ -1629,7 +1629,15 @@ impl DnsOutPacket {
     }
 
     fn write_utf8(&mut self, s: &str) {
-        assert!(s.len() < 64);
+        // A label holds at most 63 bytes. A longer one (from a name given by the
+        // user, or put together from names read off the wire) is cut short on a
+        // character boundary: the daemon thread must not panic because of it.
+        const MAX_LABEL_LEN: usize = 63;
+        let mut end = s.len().min(MAX_LABEL_LEN);
+        while !s.is_char_boundary(end) {
+            end -= 1;
+        }
+        let s = &s[..end];
         self.write_byte(s.len() as u8);
         self.write_bytes(s.as_bytes());
     }
